@@ -101,6 +101,8 @@ for tier, k in (("q", 3), ("t", 4)):
     cfg("c11a_" + tier, N1, k, ["blocks", "arrays", "tags", "sections", "props"], ["refs"], [], A11, life=4, steps=k + 4, emit=["Open", "Close", "Crash"])
     cfg("c11b_" + tier, N1, k, ["blocks", "frames", "groups", "sources", "arrays"], ["esources", "garrays", "gframes"], [], A11, life=4, steps=k + 4, emit=["Open", "Close", "Crash"])
     cfg("c11c_" + tier, N1, k + 1, ["blocks", "arrays", "mtags", "features", "sections"], ["gmtags"], ["metadata", "extents", "data", "link"], ["Create", "One", "Flush", "Close", "Crash", "Open"], life=3, steps=k + 4, emit=["Open", "Close", "Crash"])
+    # C12: ids never change: several features of one tag / multi-tag on the same array, with equal and different link types
+    cfg("c12a_" + tier, N1, k + 3, ["blocks", "arrays", "tags", "mtags", "features"], [], [], ["Create", "Close", "Open"], life=2, steps=k + 4, emit=["Create", "Open"])
     # C20: searches and back references as one QueryAll self-loop per reachable state (after arbitrary deletions)
     cfg("c20a_" + tier, N2, k + 1, ["sections", "props"], [], ["link"], ["Create", "Delete", "One", "Type", "Query"], steps=k + 3, emit=["QueryAll"])
     cfg("c20d_" + tier, N2, k + 2, ["sections"], [], [], ["Create", "Delete", "Query"], steps=k + 3, emit=["QueryAll"])
